@@ -548,6 +548,7 @@ paf24_read_s (SF_PRIVATE *psf, short *ptr, sf_count_t len)
 
 	iptr = ubuf.ibuf ;
 	bufferlen = ARRAY_LEN (ubuf.ibuf) ;
+	bufferlen -= bufferlen % ppaf24->channels ;
 	while (len > 0)
 	{	readcount = (len >= bufferlen) ? bufferlen : (int) len ;
 		count = paf24_read (psf, ppaf24, iptr, readcount) ;
@@ -590,6 +591,7 @@ paf24_read_f (SF_PRIVATE *psf, float *ptr, sf_count_t len)
 
 	iptr = ubuf.ibuf ;
 	bufferlen = ARRAY_LEN (ubuf.ibuf) ;
+	bufferlen -= bufferlen % ppaf24->channels ;
 	while (len > 0)
 	{	readcount = (len >= bufferlen) ? bufferlen : (int) len ;
 		count = paf24_read (psf, ppaf24, iptr, readcount) ;
@@ -618,6 +620,7 @@ paf24_read_d (SF_PRIVATE *psf, double *ptr, sf_count_t len)
 
 	iptr = ubuf.ibuf ;
 	bufferlen = ARRAY_LEN (ubuf.ibuf) ;
+	bufferlen -= bufferlen % ppaf24->channels ;
 	while (len > 0)
 	{	readcount = (len >= bufferlen) ? bufferlen : (int) len ;
 		count = paf24_read (psf, ppaf24, iptr, readcount) ;
@@ -717,6 +720,7 @@ paf24_write_s (SF_PRIVATE *psf, const short *ptr, sf_count_t len)
 
 	iptr = ubuf.ibuf ;
 	bufferlen = ARRAY_LEN (ubuf.ibuf) ;
+	bufferlen -= bufferlen % ppaf24->channels ;
 	while (len > 0)
 	{	writecount = (len >= bufferlen) ? bufferlen : (int) len ;
 		for (k = 0 ; k < writecount ; k++)
@@ -771,6 +775,7 @@ paf24_write_f (SF_PRIVATE *psf, const float *ptr, sf_count_t len)
 
 	iptr = ubuf.ibuf ;
 	bufferlen = ARRAY_LEN (ubuf.ibuf) ;
+	bufferlen -= bufferlen % ppaf24->channels ;
 	while (len > 0)
 	{	writecount = (len >= bufferlen) ? bufferlen : (int) len ;
 		for (k = 0 ; k < writecount ; k++)
@@ -802,6 +807,7 @@ paf24_write_d (SF_PRIVATE *psf, const double *ptr, sf_count_t len)
 
 	iptr = ubuf.ibuf ;
 	bufferlen = ARRAY_LEN (ubuf.ibuf) ;
+	bufferlen -= bufferlen % ppaf24->channels ;
 	while (len > 0)
 	{	writecount = (len >= bufferlen) ? bufferlen : (int) len ;
 		for (k = 0 ; k < writecount ; k++)
